@@ -2,6 +2,7 @@ package repro
 
 import (
 	"context"
+	"encoding/binary"
 	"fmt"
 	"os"
 	"path/filepath"
@@ -43,7 +44,13 @@ func TestTornJournalSnapshot(t *testing.T) {
 	if err != nil {
 		t.Skipf("no snapshot file: %v", err)
 	}
-	for _, cut := range []int{len(b) / 2, len(b) - 3, len(b) * 3 / 4, 12} {
+	cuts := []int{len(b) / 2, len(b) - 3, len(b) * 3 / 4, 12}
+	cuts = append(cuts, frameBoundaries(b)...)
+	t.Logf("cuts: %v", cuts)
+	for _, cut := range cuts {
+		if cut >= len(b) {
+			continue
+		}
 		if err := os.WriteFile(snap, b[:cut], 0o644); err != nil {
 			t.Fatal(err)
 		}
@@ -68,4 +75,27 @@ func TestTornJournalSnapshot(t *testing.T) {
 			}
 		}()
 	}
+}
+
+// frameBoundaries returns the offsets at which a ZNG frame ends.
+func frameBoundaries(b []byte) []int {
+	var out []int
+	off := 0
+	for off < len(b) {
+		code := b[off]
+		off++
+		if code == 0xff {
+			out = append(out, off)
+			continue
+		}
+		v, n := binary.Uvarint(b[off:])
+		if n <= 0 {
+			break
+		}
+		off += n
+		size := int(v<<4) | int(code&0xf)
+		off += size
+		out = append(out, off)
+	}
+	return out
 }
